@@ -220,6 +220,14 @@ func (s Server) Serve(c context.Context, conn network.Conn) (err error) {
 
 			// Reset the real read timeout for the coming request
 			ctx.GetConn().SetReadTimeout(s.ReadTimeout) //nolint:errcheck
+		} else if s.EnableTrace {
+			// A connection that ends before it carried a single byte (a TCP health probe,
+			// a reset, a peer that never speaks) has no request: as for a keep-alive
+			// connection closing down, nothing to answer and nothing to report to the tracers.
+			if _, perr := zr.Peek(1); perr != nil {
+				err = errIdleTimeout
+				return
+			}
 		}
 
 		if s.EnableTrace {
